@@ -145,7 +145,7 @@ def run_tlc(module, cfg=None, workers=8, timeout=900, env_extra=None, simulate=N
     env["JAVA_TOOL_OPTIONS"] = jopts
     if env_extra:
         env.update({k: str(v) for k, v in env_extra.items()})
-    cmd = ["java", "-XX:+UseParallelGC", "-XX:ParallelGCThreads=4", "-Xmx" + heap, "-cp", TLA_CP, "tlc2.TLC",
+    cmd = ["java", "-Xss1g", "-XX:+UseParallelGC", "-XX:ParallelGCThreads=4", "-Xmx" + heap, "-cp", TLA_CP, "tlc2.TLC",
            "-workers", str(workers), "-metadir", meta, "-cleanup", "-noGenerateSpecTE",
            "-config", cfg]
     if not deadlock:
